@@ -5,9 +5,9 @@
    condition and the progress at declaration.  A fault declared while a cancellation exchange
    (EOF (cancel) at the sender) is already in progress leads to abandonment as CFDP 4.11.2.2.3
    demands (this is what C04 requires); that case is stated separately. *)
-From CFDP Require Import Base Fs Handler Dest Source Mib HandlerSpec.
+From CFDP Require Import Base LostSeg Fs Handler Dest Source Mib HandlerSpec.
 From CFDP.gen Require Import Tables.
-From CFDP.proofs Require Import FaultProofs.
+From CFDP.proofs Require Import FaultProofs RetryProofs.
 From RecordUpdate Require Import RecordSet.
 Import RecordSetNotations.
 
@@ -71,6 +71,88 @@ Theorem c14_dest_abandon_never_escapes : forall pkt s, snd (Dest.state_machine p
 Proof. exact dest_abandon_never_escapes. Qed.
 Print Assumptions c14_dest_abandon_never_escapes.
 
+(* ---------- handler IGNORE at the NAK limit (dest.py _deferred_lost_segment_handling, after the F22 repair) *)
+(* the re-issue branch of deferred_lost_segment_handling (NAK timer expired, procedure not stopped): the NAK sequence is
+   queued again, the counter is incremented, the timer restarts; same text as in Dest.v *)
+Definition nak_reissue (r : rcfg) (eos : Z) : D unit :=
+  (h <- conf ;;
+   match max_seg_reqs (r_max_packet r) h with
+   | None => raise E_VALUE
+   | Some maxn =>
+     let hh := set_dir TOWARDS_SENDER h in
+     tr <- gp p_tracker ;; mdm <- gp p_md_missing ;;
+     let '(pre, acc0) :=
+       if mdm then (if 1 =? maxn then ([PNak hh 0 eos [(0, 0)]], []) else ([], [(0, 0)]))
+       else ([], []) in
+     let '(ps, rest) := nak_split hh eos maxn acc0 tr in
+     let all := pre ++ ps ++ (match rest with [] => [] | _ => [PNak hh 0 eos rest] end) in
+     fold_left (fun m p => m ;;; add_packet p) all (ret tt) ;;;
+     (n <- now ;; t <- gp p_proc_timer ;;
+      setp (fun p => p <| p_nak_counter ::= (fun c => c + 1) |>
+                       <| p_proc_timer := (match t with Some (_, tmo) => Some (n, tmo) | None => None end) |>))
+   end)%monad.
+
+(* the PDUs of one NAK sequence (as in props/C04d.v; what they request: c04_nak_seq_exact) *)
+Definition nak_seq (h : hdr) (eos maxn : Z) (mdm : bool) (tr : tracker) : list pdu :=
+  let '(pre, acc0) := if mdm then (if 1 =? maxn then ([PNak h 0 eos [(0, 0)]], []) else ([], [(0, 0)])) else ([], []) in
+  let '(ps, rest) := nak_split h eos maxn acc0 tr in
+  pre ++ ps ++ (match rest with [] => [] | _ => [PNak h 0 eos rest] end).
+
+(* an expiry of the NAK timer with the counter not at the limit is exactly a re-issue *)
+Theorem c14_dest_nak_reissue : forall s r eos t,
+  p_deferred (d_p s) = true -> p_rcfg (d_p s) = Some r -> p_file_size_eof (d_p s) = Some eos ->
+  (p_tracker (d_p s) <> [] \/ p_md_missing (d_p s) = true) ->
+  p_proc_timer (d_p s) = Some t -> timed_out (now_d s) t = true -> p_nak_counter (d_p s) + 1 <> r_nak_limit r ->
+  deferred_lost_segment_handling s = nak_reissue r eos s.
+Proof. exact dst_nak_reissue. Qed.
+Print Assumptions c14_dest_nak_reissue.
+
+(* what a re-issue does, exactly: the NAK sequence appended to the queue, counter + 1, timer restarted at the current
+   time, nothing else changed and nothing logged *)
+Theorem c14_dest_nak_reissue_exact : forall s r eos t maxn,
+  p_proc_timer (d_p s) = Some t -> max_seg_reqs (r_max_packet r) (p_conf (d_p s)) = Some maxn ->
+  let naks := nak_seq (set_dir TOWARDS_SENDER (p_conf (d_p s))) eos maxn (p_md_missing (d_p s)) (p_tracker (d_p s)) in
+  nak_reissue r eos s =
+    (s <| d_queue := d_queue s ++ naks |> <| d_ready := d_ready s + zlen naks |>
+       <| d_p ::= (fun p => p <| p_nak_counter := p_nak_counter (d_p s) + 1 |>
+                              <| p_proc_timer := Some (now_d s, snd t) |>) |>, Ok tt).
+Proof. exact nak_reissue_exact. Qed.
+Print Assumptions c14_dest_nak_reissue_exact.
+
+(* expiry N (counter + 1 = NAK limit) with NAK Limit Reached configured as IGNORE: exactly one IGNORE callback is logged
+   (s1 is s with that one event), and from there the call is exactly the re-issue of an expiry below the limit, on s1:
+   the same NAK sequence is queued, the counter becomes the limit, the timer restarts at the current time, nothing else
+   changes.  (Before the repair the call ended after the callback: no NAK, counter and timer untouched, so every later
+   call declared the fault again and the missing data was never requested again.)  Without room for one segment request
+   in a NAK PDU the re-issue raises ValueError after the callback, as below the limit. *)
+Theorem c14_dest_nak_limit_ignored_continues : forall s r eos t a b,
+  p_deferred (d_p s) = true -> p_rcfg (d_p s) = Some r -> p_file_size_eof (d_p s) = Some eos ->
+  (p_tracker (d_p s) <> [] \/ p_md_missing (d_p s) = true) ->
+  p_proc_timer (d_p s) = Some t -> timed_out (now_d s) t = true -> p_nak_counter (d_p s) + 1 = r_nak_limit r ->
+  get_fault_handler (l_faults (d_cfg s)) C_NAK_LIMIT = Some FH_IGNORE -> p_tid (d_p s) = Some (a, b) ->
+  let s1 := s <| d_env ::= (fun en => en <| e_log ::= cons (EvFault FH_IGNORE a b C_NAK_LIMIT (p_progress (d_p s))) |>) |> in
+  deferred_lost_segment_handling s = nak_reissue r eos s1 /\
+  (forall maxn, max_seg_reqs (r_max_packet r) (p_conf (d_p s)) = Some maxn ->
+     let naks := nak_seq (set_dir TOWARDS_SENDER (p_conf (d_p s))) eos maxn (p_md_missing (d_p s)) (p_tracker (d_p s)) in
+     deferred_lost_segment_handling s =
+       (s1 <| d_queue := d_queue s ++ naks |> <| d_ready := d_ready s + zlen naks |>
+           <| d_p ::= (fun p => p <| p_nak_counter := p_nak_counter (d_p s) + 1 |>
+                                  <| p_proc_timer := Some (now_d s, snd t) |>) |>, Ok tt)) /\
+  (max_seg_reqs (r_max_packet r) (p_conf (d_p s)) = None -> deferred_lost_segment_handling s = (s1, Err E_VALUE)).
+Proof. exact dst_nak_limit_ignored_continues. Qed.
+Print Assumptions c14_dest_nak_limit_ignored_continues.
+
+(* consequently the fault is declared once: the counter now equals the limit, so at every later expiry (counter at or
+   beyond the limit: counter + 1 <> limit) the call is a re-issue and logs nothing *)
+Theorem c14_dest_nak_limit_not_declared_again : forall s r eos t,
+  p_deferred (d_p s) = true -> p_rcfg (d_p s) = Some r -> p_file_size_eof (d_p s) = Some eos ->
+  (p_tracker (d_p s) <> [] \/ p_md_missing (d_p s) = true) ->
+  p_proc_timer (d_p s) = Some t -> timed_out (now_d s) t = true -> r_nak_limit r <= p_nak_counter (d_p s) ->
+  deferred_lost_segment_handling s = nak_reissue r eos s /\
+  log_d (fst (deferred_lost_segment_handling s)) = log_d s.
+Proof. exact dst_nak_limit_not_declared_again. Qed.
+Print Assumptions c14_dest_nak_limit_not_declared_again.
+
 (* no callback without a transaction id; conditions outside the table raise *)
 Theorem c14_dest_no_tid : forall s cond, p_tid (d_p s) = None -> declare_fault cond s = (s, Err E_ASSERT).
 Proof. exact dest_no_tid. Qed.
@@ -98,7 +180,9 @@ Proof. exact source_abandon. Qed.
 Print Assumptions c14_source_abandon.
 
 (* notice of cancellation at the sender, no cancellation exchange in progress yet: the condition
-   goes into an EOF PDU (size = progress, checksum over that prefix) and the cancel callback runs once *)
+   goes into an EOF PDU (size = progress, checksum over that prefix) and the cancel callback runs once;
+   before it the EOF-Sent indication (if enabled) and, in unacknowledged mode, where the transaction ends with
+   that EOF, the Transaction-Finished indication (if enabled; F21 repair) *)
 Theorem c14_source_cancel : forall s cond a b ck,
   q_tid (s_p s) = Some (a, b) -> get_fault_handler (l_faults (s_cfg s)) cond = Some FH_CANCEL ->
   (q_cond_eof (s_p s) = None \/ q_cond_eof (s_p s) = Some C_NO_ERROR) ->
@@ -107,7 +191,9 @@ Theorem c14_source_cancel : forall s cond a b ck,
   snd (checksum_calculation (q_progress (s_p s)) s) = Ok ck ->
   exists s', declare_fault_s cond s = (s', Ok tt) /\
     (exists evs, log_s s' = EvFault FH_CANCEL a b cond (q_progress (s_p s)) :: evs ++ log_s s /\
-                 (evs = [] \/ evs = [EvEofSent a b])) /\
+                 evs = (if negb (sc_mode (q_conf (s_p s)) =? ACKED) && l_ind_fin (s_cfg s)
+                        then [EvFinished a b cond DATA_INCOMPLETE FS_UNREPORTED None] else []) ++
+                       (if l_ind_eof_sent (s_cfg s) then [EvEofSent a b] else [])) /\
     s_queue s' = s_queue s ++ [PEof (hdr_of (q_conf (s_p s)) TOWARDS_RECEIVER) cond ck (q_progress (s_p s)) None].
 Proof. exact source_cancel. Qed.
 Print Assumptions c14_source_cancel.
